@@ -39,6 +39,8 @@ macro_rules! timing_guard {
 #[macro_export]
 macro_rules! timing_phase {
     ($($args:tt)*) => {
+        #[cfg(feature = "verif")]
+        let _verif_guard = $crate::verif_phase!($($args)*);
         let _guard = $crate::timing_guard!($($args)*);
     };
 }
@@ -48,7 +50,18 @@ macro_rules! timing_phase {
 #[macro_export]
 macro_rules! verbose_timing_phase {
     ($($args:tt)*) => {
+        #[cfg(feature = "verif")]
+        let _verif_guard = $crate::verif_phase!($($args)*);
         perfetto_recorder::scope!($($args)*);
+    };
+}
+
+/// Verification hook: a named phase point at the start and end of each timing phase.
+#[cfg(feature = "verif")]
+#[macro_export]
+macro_rules! verif_phase {
+    ($name:literal $($rest:tt)*) => {
+        $crate::verif::phase::PhaseGuard::new($name)
     };
 }
 
